@@ -210,7 +210,7 @@ func (inst *InstPhi) LLString() string {
 		buf.WriteString(flag.String())
 		buf.WriteString(" ")
 	}
-	buf.WriteString(inst.Typ.String())
+	buf.WriteString(inst.Type().String())
 	buf.WriteString(" ")
 	for i, inc := range inst.Incs {
 		if i != 0 {
